@@ -65,6 +65,11 @@ inductive Op
   | reg (m : Nat) (xs : List Ctx)
   /-- inside `machine.remove_model(m)`: `del model_context_map[id(m)]` -/
   | unreg (m : Nat)
+  /-- a callback takes a snapshot of the machine (or of a model referencing it) while the event is
+      processed: `pickle.dumps(machine)` / `copy.deepcopy(machine)`.  `LockedMachine.__getstate__`,
+      `PicklableLock.__getstate__` and the default `__reduce_ex__` of `IdentManager` only READ the live
+      objects: the step changes nothing but the program counter (theorem `C06_snapshot_frame`) -/
+  | snap
   deriving DecidableEq, Repr, Inhabited
 
 def alookupD (k : Nat) : List (Nat × List Ctx) → List Ctx
@@ -128,6 +133,7 @@ inductive Ev
   | callEnd (t : Nat) (raised : Bool)
   | reg (t m : Nat) (xs : List Ctx)
   | unreg (t m : Nat)
+  | snap (t : Nat)
   deriving DecidableEq, Repr, Inhabited
 
 structure Thread where
@@ -217,6 +223,10 @@ def step (c : Cfg) (eng : Nat → Nat → Nat) (s : LState) (t : Nat) : LState :
       match th.frames with
       | [] => s     -- malformed program: stuck
       | _ :: _ => emit (setTh { s with cmap := unregMap s.cmap m } t { th with prog := p }) (.unreg t m)
+    | .snap :: p =>
+      match th.frames with
+      | [] => s     -- malformed program: stuck
+      | _ :: _ => emit (setTh s t { th with prog := p }) (.snap t)
 
 def runSched (c : Cfg) (eng : Nat → Nat → Nat) (s : LState) (σ : List Nat) : LState :=
   σ.foldl (step c eng) s
@@ -250,6 +260,7 @@ def noOverlapStep (L : Nat) (st : Option Nat) (e : Ev) : Option Nat :=
     | .enter t (.lock l) => if l = L then (if o = 0 then some (t + 1) else none) else some o
     | .exit t (.lock l) => if l = L then (if o = t + 1 then some 0 else none) else some o
     | .cb t _ => if o = t + 1 then some o else none
+    | .snap t => if o = t + 1 then some o else none
     | _ => some o
 
 def noOverlapRun (L : Nat) (tr : List Ev) : Option Nat := tr.foldl (noOverlapStep L) (some 0)
@@ -268,7 +279,7 @@ structure MonSt where
     outermost call  = callBegin · enter x₁ … enter xₙ · body · exit xₙ … exit x₁ · callEnd
                       with x₁ … xₙ = the contexts configured for the call's target at that moment
                       (`exp`), in order
-    body            = ( cb | reg | unreg | callBegin · body · callEnd )*   (re-entrant calls enter nothing) -/
+    body            = ( cb | reg | unreg | snap | callBegin · body · callEnd )*   (re-entrant calls enter nothing) -/
 def ctxStep (exp : Nat → List Ctx) (m : MonSt) (e : Ev) : Option MonSt :=
   match e with
   | .callBegin _ tgt _ =>
@@ -281,6 +292,7 @@ def ctxStep (exp : Nat → List Ctx) (m : MonSt) (e : Ev) : Option MonSt :=
   | .cb _ _ => if m.depth ≥ 1 ∧ m.pe = [] ∧ m.ex = false then some m else none
   | .reg _ _ _ => if m.depth ≥ 1 ∧ m.pe = [] ∧ m.ex = false then some m else none
   | .unreg _ _ => if m.depth ≥ 1 ∧ m.pe = [] ∧ m.ex = false then some m else none
+  | .snap _ => if m.depth ≥ 1 ∧ m.pe = [] ∧ m.ex = false then some m else none
   | .exit _ x =>
     match m.st with
     | y :: r => if x = y ∧ m.depth = 1 ∧ m.pe = [] then some { m with st := r, ex := true } else none
@@ -292,7 +304,7 @@ def ctxStep (exp : Nat → List Ctx) (m : MonSt) (e : Ev) : Option MonSt :=
 
 def Ev.tid : Ev → Nat
   | .callBegin t _ _ => t | .enter t _ => t | .cb t _ => t | .exit t _ => t | .callEnd t _ => t
-  | .reg t _ _ => t | .unreg t _ => t
+  | .reg t _ _ => t | .unreg t _ => t | .snap t => t
 
 /-- the monitor's own record of which contexts are configured per model: `add_model(m, xs)` of a
 model that is not registered configures `machine contexts ++ xs`, of a registered one changes
@@ -353,6 +365,8 @@ def runOps (eng : Nat → Nat → Nat) (t : Nat) : Nat → List Op → Nat → L
   | d + 1, .reg _ _ :: p, ms, log => runOps eng t (d + 1) p ms log
   | 0, .unreg m :: p, ms, log => (ms, log, .unreg m :: p)
   | d + 1, .unreg _ :: p, ms, log => runOps eng t (d + 1) p ms log
+  | 0, .snap :: p, ms, log => (ms, log, .snap :: p)
+  | d + 1, .snap :: p, ms, log => runOps eng t (d + 1) p ms log
 
 structure Seq where
   progs : Nat → List Op
